@@ -15,9 +15,9 @@ import os
 import numpy as np
 
 PROP = 'C05'
-TARGETS = ['T1', 'T1b', 'T4', 'T11', 'T11b', 'T11c', 'T11d', 'T11e', 'T12']
+TARGETS = ['T1', 'T1b', 'T4', 'T11', 'T11b', 'T11c', 'T11d', 'T11e', 'T11f', 'T12']
 LEAN_MODULES = ['HdVerif.Props.C05']
-MODEL_MODULES = ['HdVerif.Model.FrameAccess']
+MODEL_MODULES = ['HdVerif.Model.FrameAccess', 'HdVerif.Model.EncapBytes']
 NAMESPACE = 'HdVerif.C05'
 DRIVER = 'Drivers/C05.lean'
 RULE = ('images generated from (bits, signed, samples, frames, rows, cols, syntax, offset table) with random pixels; '
@@ -561,8 +561,14 @@ def _encapsulated(ctx, reqs, pending):
                 else:
                     reqs.append(('getBot', {'stored': stored, 'frags': frags, 'n': nfr}))
                 pending.append(({'enc': d, 'what': 'offset table', 'layer': 'L2'}, ('ok', [int(x) for x in table])))
+            pdb, eotb = _pixel_value_bytes(rd, blob) if st == 'ok' else (None, None)
             for i in range(nfr):
                 st2, raw = _fetch(rd.read_frame_raw, i)
+                if pdb is not None:
+                    # the same read on the byte-level model: the file's own bytes (codec output, real tables)
+                    reqs.append(('lazyRawEnc', {'pd': pdb, 'eot': eotb, 'n': nfr, 'i': i}))
+                    pending.append(({'enc': d, 'i': i, 'what': 'raw frame from the file bytes (byte-level model)'},
+                                    ('ok', list(raw)) if st2 == 'ok' else ('err', 'other')))
                 ctx.case(path='reader/enc', syntax=ts.name, table=ot, fragments=k,
                          nontrivial_key=('enc', ts.name, ot, k, nfr, i, idx))
                 case = {'enc': d, 'i': i}
@@ -757,12 +763,147 @@ def _synthetic_fragments(ctx, reqs, pending):
             rd.__exit__(None, None, None)
 
 
+def _pixel_value_bytes(rd, blob):
+    """The bytes of the file from the first byte of the Pixel Data element's VALUE on (explicit VR, undefined length:
+    tag 4 + VR 2 + reserved 2 + length 4 = 12 header bytes), and the value of ExtendedOffsetTable if present."""
+    off = int(rd._pixel_data_offset)
+    md = rd.metadata
+    eot = list(bytes(md.ExtendedOffsetTable)) if 'ExtendedOffsetTable' in md else None
+    return list(blob[off + 12:]), eot
+
+
+def _byte_streams(ctx, reqs, pending):
+    """The lazy reader against the BYTE-level model (Model/EncapBytes.lean) on the bytes of the file itself: encapsulated
+    pixel data written by hand, item by item, well-formed and MALFORMED (no sequence delimiter, odd / zero item length,
+    a foreign tag between the items, the last item cut off, junk behind the delimiter), with every kind of offset table
+    (empty / correct / wrong count / right count but wrong entries Basic Offset Table; correct / wrong count / ragged
+    Extended Offset Table).  L0: whether the image opens, and the raw bytes of every frame index in -1..n.
+    Oracle: a well-formed stream gives frame i = its fragments; a stream that cannot be walked to a sequence delimiter is
+    refused when the table has to be built from it."""
+    import highdicom as hd
+    from pydicom.filebase import DicomBytesIO
+    from pydicom.uid import JPEG2000Lossless, JPEGBaseline8Bit, JPEGLSLossless, RLELossless
+    from gen.images import MF_SC_BYTE, base_dataset, to_bytes
+    item = lambda b: b'\xfe\xff\x00\xe0' + len(b).to_bytes(4, 'little') + b     # noqa: E731
+    delim = b'\xfe\xff\xdd\xe0\x00\x00\x00\x00'
+    for idx in range(ctx.n(90, 1500)):
+        r = ctx.rng('bytestream', idx)
+        nfr = r.randint(1, 5)
+        marker = r.choice([b'\xff\xd8', b'\xff\x4f'])
+        style = r.choice(['marked', 'marked', 'single-unmarked', 'mismatch'])
+
+        def frag(first2):
+            return first2 + bytes(r.randrange(256) for _ in range(2 * r.randint(0, 3)))
+        frames = []
+        for q in range(nfr):
+            if style == 'marked':
+                fr = [frag(marker)] + [frag(bytes([r.randrange(254), r.randrange(256)])) for _ in range(r.choice([0, 0, 1, 2]))]
+            elif style == 'single-unmarked':
+                fr = [frag(bytes([r.randrange(254), r.randrange(256)]))]
+            else:
+                fr = [frag(bytes([r.randrange(254), r.randrange(256)])) for _ in range(2 if q == 0 else r.choice([1, 2]))]
+            frames.append(fr)
+        flat = [f for fr in frames for f in fr]
+        offs, pos = [], 0
+        for fr in frames:
+            offs.append(pos)
+            pos += sum(8 + len(f) for f in fr)
+        defect = r.choice(['none', 'none', 'none', 'no-delimiter', 'odd-item', 'zero-item', 'foreign-tag', 'cut-last-item', 'junk-after'])
+        table = r.choice(['bot-empty', 'bot-empty', 'bot-good', 'bot-wrong-count', 'bot-wrong-entries', 'eot-good', 'eot-wrong-count', 'eot-ragged'])
+        items = [item(f) for f in flat]
+        k = r.randrange(len(items))
+        if defect == 'odd-item':
+            items[k] = item(flat[k] + b'\x07')
+        elif defect == 'zero-item':
+            items.insert(k, item(b''))
+        elif defect == 'foreign-tag':
+            items.insert(k, r.choice([b'\xfe\xff\x0d\xe0', b'\xe0\x7f\x10\x00', b'\x00\x00\x00\x00']) + (4).to_bytes(4, 'little') + b'\x01\x02\x03\x04')
+        stream = b''.join(items)
+        if defect == 'cut-last-item':
+            stream = stream[:-r.randint(1, len(items[-1]) - 1)]
+        elif defect != 'no-delimiter':
+            stream += delim
+        if defect == 'junk-after':
+            stream += bytes(r.randrange(256) for _ in range(r.randint(1, 12)))
+        bot_entries, eot = [], None
+        if table == 'bot-good':
+            bot_entries = offs
+        elif table == 'bot-wrong-count':
+            bot_entries = (offs + [pos])[:nfr + 1] if r.random() < 0.5 else offs[:-1] + ([] if nfr > 1 else [0, 0])
+        elif table == 'bot-wrong-entries':
+            bot_entries = [o + r.choice([0, 2, 8, -8 if o else 4]) for o in offs]
+        elif table == 'eot-good':
+            eot = b''.join(o.to_bytes(8, 'little') for o in offs)
+        elif table == 'eot-wrong-count':
+            eot = b''.join(o.to_bytes(8, 'little') for o in offs + [pos])
+        elif table == 'eot-ragged':
+            eot = b''.join(o.to_bytes(8, 'little') for o in offs) + b'\x01\x00\x00\x00'
+        bot = item(b''.join(max(o, 0).to_bytes(4, 'little') for o in bot_entries))
+        ds = base_dataset(MF_SC_BYTE, r.choice([JPEG2000Lossless, JPEGBaseline8Bit, JPEGLSLossless, RLELossless]))
+        ds.NumberOfFrames = nfr
+        ds.Rows, ds.Columns, ds.SamplesPerPixel = 4, 4, 1
+        ds.PhotometricInterpretation = 'MONOCHROME2'
+        ds.BitsAllocated, ds.BitsStored, ds.HighBit, ds.PixelRepresentation = 8, 8, 7, 0
+        if eot is not None:
+            ds.ExtendedOffsetTable = eot
+            ds.ExtendedOffsetTableLengths = b''.join((8).to_bytes(8, 'little') for _ in range(len(eot) // 8))
+        ds.PixelData = item(b'') + delim
+        ds['PixelData'].VR = 'OB'
+        ds['PixelData'].is_undefined_length = True
+        blob0 = to_bytes(ds)
+        # cut the file behind the 12 header bytes of the Pixel Data element and write the stream by hand
+        cut = blob0.rfind(b'\xe0\x7f\x10\x00OB\x00\x00\xff\xff\xff\xff')
+        if cut < 0:
+            ctx.note('byte stream generator: Pixel Data header not found')
+            continue
+        blob = blob0[:cut + 12] + bot + stream
+        pd = list(bot + stream)
+        d = {'idx': idx, 'style': style, 'frames': nfr, 'fragments': [len(fr) for fr in frames], 'defect': defect, 'table': table}
+        rd = hd.io.ImageFileReader(DicomBytesIO(blob))
+        st, _ = _fetch(rd.__enter__)
+        if st == 'ok':
+            st, why = _fetch(lambda: rd.metadata)
+        opened = st == 'ok'
+        ctx.case(path='reader/bytes', defect=defect, table=table, style=style, outcome='opened' if opened else 'refused',
+                 nontrivial_key=('bytes', style, defect, table, nfr, tuple(len(fr) for fr in frames)) if opened else None)
+        reqs.append(('openEncapsulated', {'pd': pd, 'eot': list(eot) if eot is not None else None, 'n': nfr}))
+        pending.append(({'bytes': d, 'what': 'offset table and first frame position from the bytes', 'layer': 'L2'},
+                        ('ok', {'first': int(rd._first_frame_offset) - int(rd._pixel_data_offset) - 12,
+                                'table': [int(x) for x in rd._offset_table]}) if opened else ('err', 'other')))
+        # ---- oracle
+        n_marked = sum(1 for f in flat if f[:2] in (b'\xff\xd8', b'\xff\x4f'))
+        wellformed = defect in ('none', 'junk-after')
+        usable_table = table in ('bot-good', 'eot-good')
+        must_build = table in ('bot-empty', 'bot-wrong-count')
+        if wellformed and (usable_table or (must_build and (n_marked == nfr or len(flat) == nfr))) and not opened:
+            ctx.fail({'bytes': d}, 'a well-formed encapsulated image was refused', site='open/bytes')
+        if must_build and opened and (defect in ('no-delimiter', 'odd-item', 'zero-item', 'foreign-tag', 'cut-last-item')):
+            ctx.fail({'bytes': d}, 'offset table built from a stream that cannot be walked to its sequence delimiter', site='_build_bot/bytes')
+        for i in range(-1, nfr + 1):
+            st2, raw = _fetch(rd.read_frame_raw, i) if opened else ('err', 'not opened')
+            ctx.case(path='reader/bytes-frame', defect=defect, table=table, inrange=0 <= i < nfr)
+            case = {'bytes': d, 'i': i}
+            reqs.append(('lazyRawEnc', {'pd': pd, 'eot': list(eot) if eot is not None else None, 'n': nfr, 'i': i}))
+            pending.append((case, ('ok', list(raw)) if st2 == 'ok' else ('err', 'other')))
+            if not 0 <= i < nfr:
+                if st2 == 'ok':
+                    ctx.fail(case, 'frame index outside the image accepted', site='read_frame_raw/bytes')
+            elif opened and wellformed and (usable_table or must_build):
+                want = b''.join(frames[i]) if (usable_table or n_marked == nfr) else flat[i]
+                if st2 != 'ok' or bytes(raw) != want:
+                    ctx.fail(case, f'raw bytes of frame {i} are not its fragments: {raw if st2 != "ok" else bytes(raw).hex()} != {want.hex()}',
+                             site='read_frame_raw/bytes')
+        if opened:
+            _fetch(rd.__exit__, None, None, None)
+
+
 def run(ctx):
     reqs, pending = [], []
     _helpers(ctx, reqs, pending)
     _colour(ctx, reqs, pending)
     _encapsulated(ctx, reqs, pending)
     _synthetic_fragments(ctx, reqs, pending)
+    _byte_streams(ctx, reqs, pending)
     for d, ds, fr in _images(ctx):
         _check_image(ctx, d, ds, fr, reqs, pending)
     _fixtures(ctx)
@@ -796,7 +937,7 @@ def replay(ctx, case):
     def key(c):
         if not isinstance(c, dict):
             return None
-        for k in ('image', 'enc', 'syn'):
+        for k in ('image', 'enc', 'syn', 'bytes'):
             if k in c and isinstance(c[k], dict):
                 return (k, c[k].get('idx'), c[k].get('colour'), c.get('path', '').split('/')[0])
         if 'fixture' in c:
